@@ -3,8 +3,12 @@
     recv <waitall 0|1> <size> <streamhex> <script>   →  ok <hex> <unread> <scriptleft> | closed <hex|none> <unread> <left> | timeout .. | scriptend ..
     send <blocking 0|1> <datahex> <script>           →  ok|closed|timeout|scriptend <acceptedhex> <scriptleft>
   script: comma separated events  d<k> | r | f | t | pr<k> | pf<k>   ("-" = empty)
+  every recv / send answer ends in  s<n>  = number of time.sleep(next(delays)) the call performed (PyroModel/SockIODelays.lean)
+    delays <n>   →  <den> <v0,v1,…>   the first n values of the back-off generator as transcribed from the source
+                    (Gen.C17.Src, units of 1/den s); suffix " MODEL:<…>" when the hand model `retryDelay` says otherwise
 -/
 import PyroModel.SockIO
+import PyroModel.SockIODelays
 import PyroModel.PyIR
 import PyroModel.Gen.C17
 import Driver.Util
@@ -65,15 +69,25 @@ def step : List String → String
     | some n, some st, some sc =>
       let model := showRecv (receive (w == "1") n st sc)
       let raw := PyIR.runRecv { useWaitall := w == "1", peercert := false, blocking := true, isSub := Pyro.Gen.C17.isSub } Pyro.Gen.C17.receiveData n st sc
-      withIR model ((PyIR.toRecv raw).map showRecv) raw
+      withIR model ((PyIR.toRecv raw).map showRecv) raw ++ s!" s{(receiveS (w == "1") n st sc).2}"
     | _, _, _ => "bad-op"
   | ["send", b, data, script] =>
     match hexToBytes data, parseScript script with
     | some d, some sc =>
       let model := showSend (send (b == "1") d sc)
       let raw := PyIR.runSend { useWaitall := false, peercert := false, blocking := b == "1", isSub := Pyro.Gen.C17.isSub } Pyro.Gen.C17.sendData d sc
-      withIR model ((PyIR.toSend raw).map showSend) raw
+      withIR model ((PyIR.toSend raw).map showSend) raw ++ s!" s{(sendS (b == "1") d sc).2}"
     | _, _ => "bad-op"
+  | ["delays", n] =>
+    match n.toNat? with
+    | some n =>
+      let showL (l : List (Option Nat)) : String :=
+        if l.isEmpty then "-" else ",".intercalate (l.map fun | some v => toString v | none => "stop")
+      let src := (List.range n).map (genNth Pyro.Gen.C17.Src.retryDelaysPre Pyro.Gen.C17.Src.retryDelaysInit
+        Pyro.Gen.C17.Src.retryDelaysBody Pyro.Gen.C17.Src.retryDelaysLoops)
+      let mdl := (List.range n).map (fun k => some (retryDelay k))
+      s!"{Pyro.Gen.C17.Src.delayDen} {showL src}" ++ (if src == mdl then "" else " MODEL:" ++ showL mdl)
+    | none => "bad-op"
   | _ => "bad-op"
 
 def main : IO Unit := runDriver step
